@@ -97,8 +97,8 @@ C14_SPEC = dict(
     harness_args=["c14"],
     driver_args=["c14"],
     ml_modules=["transfac_model"],
-    n={"quick": 150, "thorough": 2500},
-    search_n={"quick": 300, "thorough": 3000},
+    n={"quick": 400, "thorough": 6000},
+    search_n={"quick": 600, "thorough": 6000},
     nontrivial=_nontrivial_c14,
     histogram=_hist_c14,
     rule="[TRANSFAC] files written from random record lists (1..300 records, matrices of 1..40 rows, optional "
@@ -108,7 +108,10 @@ C14_SPEC = dict(
          "XX lines, BA/BS/BF/CO lines, CC runs, DT lines and reference blocks sprinkled in, a random blank/tab column separator, P0/PO, optional consensus column "
          "or trailing blanks) or by a layout-varied printer (field order, "
          "XX lines, blanks/tabs, PO/P0, label styles, consensus column, references, unobserved BF/BA/BS/CC/CO/DT lines), "
-         "plus the bundled tests/*.transfac and benches/prodoric.transfac (353 records); each file read through "
+         "plus the bundled tests/*.transfac and benches/prodoric.transfac (353 records), which an (untrusted) "
+         "recogniser in the driver + the extracted wf_file/print_file confirm to be byte-for-byte instances of "
+         "C14.reader_roundtrip, so that every record the implementation returns for them is compared with the "
+         "theorem's expected_record; each file read through "
          "BufReader capacities 1,2,3,5,17,64,8192,1048576 and a custom BufRead with a cyclic random chunk-size pattern. "
          "Checked: the outcome sequence (id, accession, name, description, every cell as f32 bits, references, "
          "to_counts) equals the written records then END (extracted check_c14), is the same for all 9 chunkings, and "
@@ -119,17 +122,18 @@ C14_SPEC = dict(
     assumptions=[
         "TRANSFAC: reader_roundtrip (all record lists meeting the boolean wf_file, all chunkings) is proved for the "
         "files written by TransfacPrint.print_file: optional VV header; every record a list of lines IN ANY ORDER and "
-        "number -- AC/ID/NA/DE lines (a repeated line: the last wins), BA/BS/BF/CO lines with any one-line text, runs "
+        "number -- AC/ID/NA/DE lines (any blanks/tabs, possibly none, between the code and the value; a repeated line: "
+        "the last wins), BA/BS/BF/CO lines with any one-line text, runs "
         "of CC lines, DT lines (dd.mm.yyyy (created|updated); author.), XX lines, reference blocks (RN [n] with optional '; xref.', then any RX PUBMED / RA / RT / RL lines: number, "
         "cross reference and the last pmid / title / link of the block are returned, blocks in file order), matrix "
         "blocks (header P0 or PO, symbols in any order / any subset without repetition, any non-empty "
-        "blank/tab string per block before every symbol and count, one row per position, any one-line UTF-8 text "
-        "starting with a blank after the last count, e.g. the consensus letter column) -- then the '//' line; LF or "
+        "blank/tab string of its own before every symbol and every count -- e.g. right-aligned columns --, one row per "
+        "position, any one-line UTF-8 text starting with a blank after the last count, e.g. the consensus letter column) -- then the '//' line; LF or "
         "CRLF; last '//' with or without line ending; counts = any token that nom's float parser accepts entirely "
         "(digits, fraction, exponent, sign, nan, inf), row labels = anything nom's u32 accepts, AC/ID/NA/DE values = "
-        "any one-line valid UTF-8 text that trim() leaves unchanged (written after two blanks). Not in the theorem, "
+        "any one-line valid UTF-8 text that trim() leaves unchanged. Not in the theorem, "
         "covered by the correspondence check (model = implementation, implementation = written records) only: "
-        "separators varying inside one matrix block, other blanks after the line code, RX lines not of the form "
+        "blanks after the line codes RN/RT/RL/DT other than the two canonical ones, RX lines not of the form "
         "'RX  PUBMED: id.'",
         "TRANSFAC: the theorems speak of count *tokens* (the matrix cell holds the token written under that symbol); "
         "the token -> f32 conversion is outside the theorem: Dec2F32.f32_of_token (exact, Flocq) is compared bit for "
@@ -150,8 +154,8 @@ C15_SPEC = dict(
     harness_args=["c15"],
     driver_args=["c15"],
     ml_modules=["transfac_model"],
-    n={"quick": 3000, "thorough": 60000},
-    search_n={"quick": 6000, "thorough": 60000},
+    n={"quick": 8000, "thorough": 100000},
+    search_n={"quick": 10000, "thorough": 100000},
     nontrivial=_nontrivial_c15,
     histogram=_hist_c15,
     rule="[TRANSFAC] malformed inputs: valid generated files (1..3 records, canonical or varied layout, DNA/protein) "
